@@ -22,7 +22,8 @@ ordinary statement:
 * `C14_ingest_result`: ingestion returns bytes or an error value.
 * `C14_parse`: for EVERY source text the parser model (pest interpreter over the
   regenerated grammar, then the pair-tree walk of `parse_asm` with its 23
-  `unwrap` / `unreachable!` / `assert!` sites) reaches none of those sites: the
+  `unwrap` / `unreachable!` / `assert!` sites) reaches none of those sites and
+  never runs out of its own fuel (which is computed from the pair tree): the
   interpreter is sound for a token-shape / matched-text semantics of grammar
   expressions (`PestShape.shape_sound`), the regenerated grammar's rules satisfy the
   shape specification the walk relies on (`GrammarClosed.spec_closed`, rule by
@@ -96,9 +97,10 @@ theorem C14_ingest_result (fs : FS) (cwd : PathC) (rnd : Nat → Nat) (fuel : Na
   | ok r => exact Or.inl ⟨r, rfl⟩
   | error e => exact Or.inr ⟨e, rfl⟩
 
-/-- the parser: no `unwrap` / `unreachable!` / `assert!` site of `parse/*.rs` is reachable, whatever the text -/
-theorem C14_parse (text : List Nat) (site : String) (h : parseAsm text = .error (.panic site)) : site = "fuel" :=
-  parseAsm_panic_only_fuel text site h
+/-- the parser: no `unwrap` / `unreachable!` / `assert!` site of `parse/*.rs` is reachable, whatever the text; the
+walk's fuel (text length plus the size of the pair tree it walks) always suffices, so there is no panic outcome at all -/
+theorem C14_parse (text : List Nat) (site : String) : parseAsm text ≠ .error (.panic site) :=
+  parseAsm_no_panic text site
 
 theorem rootNew_not_parse (fs : FS) (cwd file : PathC) (e : ParseErr) : Root.new fs cwd file ≠ .error (.parse e) := by
   unfold Root.new
